@@ -7,6 +7,7 @@ package ice
 import (
 	"io"
 	"net"
+	"os"
 	"time"
 )
 
@@ -38,6 +39,8 @@ type verifStreamConn struct {
 	closed    int
 	remote    net.Addr
 	deadlines int
+	// a write deadline at or before "now" has been set and not cleared
+	writeDeadlinePast bool
 }
 
 var errVerifInjected = io.ErrUnexpectedEOF
@@ -86,6 +89,9 @@ func (c *verifStreamConn) Read(p []byte) (int, error) {
 }
 
 func (c *verifStreamConn) Write(p []byte) (int, error) {
+	if c.writeDeadlinePast {
+		return 0, os.ErrDeadlineExceeded // as a real connection does once its write deadline has passed
+	}
 	cp := make([]byte, len(p))
 	copy(cp, p)
 	c.written = append(c.written, cp)
@@ -102,11 +108,21 @@ func (c *verifStreamConn) Close() error {
 	}
 	return nil
 }
-func (c *verifStreamConn) LocalAddr() net.Addr                { return verifAddr{"10.0.0.1:1"} }
-func (c *verifStreamConn) RemoteAddr() net.Addr               { return c.remote }
-func (c *verifStreamConn) SetDeadline(t time.Time) error      { c.deadlines++; return nil }
-func (c *verifStreamConn) SetReadDeadline(t time.Time) error  { c.deadlines++; return nil }
-func (c *verifStreamConn) SetWriteDeadline(t time.Time) error { c.deadlines++; return nil }
+func (c *verifStreamConn) LocalAddr() net.Addr  { return verifAddr{"10.0.0.1:1"} }
+func (c *verifStreamConn) RemoteAddr() net.Addr { return c.remote }
+func (c *verifStreamConn) SetDeadline(t time.Time) error {
+	c.deadlines++
+	c.writeDeadlinePast = !t.IsZero() && time.Until(t) < time.Second
+	return nil
+}
+func (c *verifStreamConn) SetReadDeadline(t time.Time) error { c.deadlines++; return nil }
+func (c *verifStreamConn) SetWriteDeadline(t time.Time) error {
+	c.deadlines++
+	// "now or earlier" (what an abort sets) fails later writes; a deadline seconds
+	// ahead (what Close sets to flush) or none does not
+	c.writeDeadlinePast = !t.IsZero() && time.Until(t) < time.Second
+	return nil
+}
 
 // verifNopLogger implements logging.LeveledLogger with empty bodies.
 type verifNopLogger struct{}
